@@ -5,8 +5,8 @@ import iongen
 import binlib
 
 import c12text
-THEOREMS = ["C12_binary_no_panic", "C12_binary_sticky", "C12_binary_error_recorded", "C12_binary_first_failure", "C12_binary_lst_no_panic", "C12_binary_lst_total", "C12_binary_finish_clean", "C12_binary_finish_clean_lst", "C12_binary_denote", "C12_binary_denote_show", "C12_binary_denote_writer", "C12_binary_batches_decode", "C12_binary_final_finish_enough", "C12_binary_lockstep", "C12_ex_finish_inside", "C12_ex_two_batches"] + c12text.THEOREMS
-EXTRA_MODULES = ["C12bin3"]
+THEOREMS = ["C12_binary_no_panic", "C12_binary_sticky", "C12_binary_error_recorded", "C12_binary_first_failure", "C12_binary_lst_no_panic", "C12_binary_lst_total", "C12_binary_finish_clean", "C12_binary_finish_clean_lst", "C12_binary_denote", "C12_binary_denote_show", "C12_binary_denote_writer", "C12_binary_batches_decode", "C12_binary_final_finish_enough", "C12_binary_lockstep", "C12_ex_finish_inside", "C12_ex_two_batches", "C12_text_denote", "C12_text_denote_bytes", "C12_text_denote_bytes_plain", "C12_text_denote_reads_back_partial", "C12_text_final_finish_enough", "C12_text_lockstep", "C12_text_bytes_all_calls_refuted", "C12_binary_denote_budget", "C12_binary_final_finish_no_refusal", "C19_binary_fault_split_from", "C19_binary_fault_split", "C19_binary_fault_split_bytes", "C19_binary_fault_is_finish", "C19_binary_fault_trichotomy", "C19_binary_buffered_calls_ignore_sink", "C19_binary_budget_total", "C12_binary_lst_denote", "C12_binary_lst_final_finish_no_refusal", "C12_binary_lst_denote_writer", "C12_binary_lst_lockstep", "C12_binary_lst_unknown_symbol", "C19_binary_lst_fault_split"] + c12text.THEOREMS
+EXTRA_MODULES = ["C12bin3", "C12bin4", "C12text2"]
 LEVEL = "proof"
 ASSUMPTIONS = ["Go == model only on the call sequences sampled (exhaustive for short sequences over the reduced alphabet)",
                "binary no-panic theorem is for NewBinaryWriter without shared tables; the fixed-table writer is covered by correspondence",
